@@ -42,19 +42,20 @@ Bind(form, x) ==
         /\ UNCHANGED scopes /\ res' = [NoRes EXCEPT !.dev = "Dev_WalrusStmtNotBound"]
 \* def f(p): ...   (f is bound outside, p inside)
 Def(f, p) == /\ Step(Lab("def", "", f, p)) /\ Len(scopes) < 3 /\ UNCHANGED session
-             /\ scopes' = Append([scopes EXCEPT ![Len(scopes)].names = @ \cup {f}], [kind |-> "function", names |-> {p}])
+             /\ scopes' = Append([scopes EXCEPT ![Len(scopes)].names = @ \cup {f}], [kind |-> "function", names |-> {p}, globals |-> {}])
              /\ res' = NoRes
 Class(c) == /\ Step(Lab("class", "", c, "")) /\ Len(scopes) < 3 /\ UNCHANGED session
-            /\ scopes' = Append([scopes EXCEPT ![Len(scopes)].names = @ \cup {c}], [kind |-> "class", names |-> {}])
+            /\ scopes' = Append([scopes EXCEPT ![Len(scopes)].names = @ \cup {c}], [kind |-> "class", names |-> {}, globals |-> {}])
             /\ res' = NoRes
 EndBlock == /\ Step(Lab("end", "", "", "")) /\ Len(scopes) > 1 /\ UNCHANGED session
             /\ scopes' = SubSeq(scopes, 1, Len(scopes) - 1) /\ res' = NoRes
 \* global x; x = 1   inside a function
 Global(x) == /\ Step(Lab("global", "", x, "")) /\ Top.kind = "function" /\ UNCHANGED session
-             /\ scopes' = [scopes EXCEPT ![1].names = @ \cup {x}] /\ res' = NoRes
+             /\ scopes' = [scopes EXCEPT ![1].names = @ \cup {x}, ![Len(scopes)].globals = @ \cup {x}] /\ res' = NoRes
 \* del x: the name leaves the innermost scope that holds it - or the session
 Holders(x) == {i \in 1..Len(scopes) : x \in scopes[i].names}
-Del(x) == /\ Step(Lab("del", "", x, "")) /\ res' = NoRes
+\* (deleting, inside a function, a name that the function declared `global` is left out of the model)
+Del(x) == /\ Step(Lab("del", "", x, "")) /\ res' = NoRes /\ x \notin Top.globals
           /\ IF Holders(x) # {}
              THEN LET i == CHOOSE j \in Holders(x) : \A k \in Holders(x) : k <= j IN
                   scopes' = [scopes EXCEPT ![i].names = @ \ {x}] /\ UNCHANGED session
@@ -72,7 +73,7 @@ Expr(shape, x, y) ==
      \/ /\ r \subseteq VisibleLoose /\ res' = [decision |-> "python", dev |-> ""]
      \/ /\ ~(r \subseteq VisibleStrict) /\ res' = [decision |-> "command", dev |-> ""]
 
-Init == /\ scopes = <<[kind |-> "module", names |-> {}]>> /\ session \in SUBSET Names /\ n = 0
+Init == /\ scopes = <<[kind |-> "module", names |-> {}, globals |-> {}]>> /\ session \in SUBSET Names /\ n = 0
         /\ act = Lab("init", "", "", "") /\ res = NoRes
 
 Next == \/ \E f \in Forms, x \in Names : Bind(f, x)
